@@ -158,6 +158,12 @@ def run(ctx):
     buscheck.run_histories(ctx, n // 2, 70, oracle, gen_kw={"weights": dict(W, query=8, request=14), "max_conns": 5}, policy=deny,
                            findings=findings, seed_salt=42, label="monitors-with-denials")
     buscheck.run_histories(ctx, 0, 0, oracle, findings=findings, seed_salt=43, label="vanished-peer-filters", scripts=vanished_peer_scripts())
+    # monitors together with service activation: model (activation layer) against the daemon, step by step
+    from .. import actcheck, actdiff, actgen
+    actcheck.run_histories(ctx, 0, 0, actdiff.Svc(actgen.DEFAULT_FILES), scripts=activation_scripts(), label="monitors-and-activation",
+                           oracle_fn=lambda tr: [], prop="C18")
+    actcheck.run_histories(ctx, 24 if ctx.quick() else 600, 60, actdiff.Svc(actgen.DEFAULT_FILES), gen_kw={"max_conns": 5, "weights": {"monitor": 5}},
+                           seed_salt=47, label="activation-with-monitors", oracle_fn=lambda tr: [], prop="C18")
     # non-interference on the implementation itself: the same history with the monitor gone instead
     from concurrent.futures import ProcessPoolExecutor
     k = 30 if ctx.quick() else 500
@@ -204,5 +210,41 @@ def vanished_peer_scripts():
     return out
 
 
+def activation_scripts():
+    """monitors and service activation together (the one place the history theorem does not reach): a connection whose call is held for a
+    service being started becomes a monitor before the service arrives; a monitor watches an activation from beginning to end"""
+    from ..bus import method_call, BUS_PATH
+    hello = lambda: method_call(1, BUS, BUS_PATH, BUS, "Hello").marshal()
+    def become(s, rules):
+        return method_call(s, BUS, BUS_PATH, "org.freedesktop.DBus.Monitoring", "BecomeMonitor", "asu", [rules, 0]).marshal()
+    def call(s, dest, member="M", flags=0):
+        return method_call(s, dest, "/x", "a.b", member, "s", [b"p"], flags=flags).marshal()
+    def req(s, name, fl=0):
+        return method_call(s, BUS, BUS_PATH, BUS, "RequestName", "su", [name.encode(), fl]).marshal()
+    def start(s, name):
+        return method_call(s, BUS, BUS_PATH, BUS, "StartServiceByName", "su", [name.encode(), 0]).marshal()
+    def ret(s, dest, rs):
+        from ..bus import reply_msg
+        return reply_msg(s, rs, dest).marshal()
+    base = [("connect", 0, 0, False), ("send", 0, hello())] + [x for c in (1, 2, 3) for x in (("connect", c, 0, False), ("send", c, hello()))]
+    out = []
+    # the caller of a held call turns into a monitor; the service arrives, gets the call, answers it
+    out.append(base + [("send", 1, call(5, "com.example.A")), ("send", 1, become(6, [])), ("send", 3, req(5, "com.example.A")),
+                       ("send", 3, ret(6, ":1.1", 5)), ("send", 2, call(5, "com.example.A", "M2")), ("svcexit", "A", 0)])
+    # the same with a second waiter and a StartServiceByName caller, and the program failing instead
+    out.append(base + [("send", 1, call(5, "com.example.A")), ("send", 2, call(5, "com.example.A")), ("send", 2, start(6, "com.example.A")),
+                       ("send", 1, become(6, [b"type='error'"])), ("svcexit", "A", 1), ("send", 2, call(7, "com.example.A"))])
+    # a monitor is there from the start and watches: held, started, delivered, answered
+    out.append(base + [("send", 2, become(5, [])), ("send", 1, call(5, "com.example.B")), ("send", 1, start(6, "com.example.B")),
+                       ("send", 3, req(5, "com.example.B")), ("send", 3, ret(6, ":1.1", 5)), ("close", 3), ("send", 1, call(7, "com.example.B")),
+                       ("svcexit", "B", "segv")])
+    return out
+
+
 def replay(path):
+    with open(path) as f:
+        d = json.load(f)
+    if (d.get("replay") or d).get("kind") == "act-history":
+        from .. import actcheck
+        return actcheck.replay_history(path, oracle_fn=lambda tr: [], prop="C18")
     return buscheck.replay_history(path, oracle, "C18")
